@@ -168,7 +168,9 @@ pub(crate) fn run(opts: &Opts, report: &mut Report) {
     let mut items: Vec<Item> = vec![];
     for last_n in if thorough { vec![2u64, 3] } else { vec![2u64] } {
         for depth in 1..=(last_n + 2) {
-            for growth in if thorough { (1..=(last_n + 2)).collect::<Vec<_>>() } else { vec![1, last_n, last_n + 2] } {
+            // (growth last-N+1 .. 2*last-N runs into the known zero-sample rejection with high
+            // probability; last-N+6 exercises the sampled path with a lower one)
+            for growth in if thorough { (1..=(last_n + 2)).chain([last_n + 6]).collect::<Vec<_>>() } else { vec![1, last_n, last_n + 2, last_n + 6] } {
                 for set in if thorough { vec![0usize, 1, 2, 3] } else { vec![1usize, 3] } {
                     items.push(Item { last_n, depth, growth, set });
                 }
